@@ -15,7 +15,7 @@ impl View for Bytes {
 impl Bytes {
     #[verifier::external_body]
     pub fn len(&self) -> (r: usize)
-        ensures r == self@.len(),
+        ensures r == self@.len(), r <= 0x7fff_ffff_ffff_ffff,   // no Rust allocation exceeds isize::MAX bytes
     { self.inner.len() }
 
     #[verifier::external_body]
@@ -31,6 +31,14 @@ impl Bytes {
 
     #[verifier::external_body]
     pub fn as_slice(&self) -> (r: &[u8])
+        ensures r@ == self@,
+    { &self.inner[..] }
+}
+
+impl core::ops::Deref for Bytes {
+    type Target = [u8];
+    #[verifier::external_body]
+    fn deref(&self) -> (r: &[u8])
         ensures r@ == self@,
     { &self.inner[..] }
 }
